@@ -228,6 +228,21 @@ func (this *DefaultInputBitStream) readFromInputStream(count int) (int, error) {
 	size, err := this.is.Read(this.buffer[0:count])
 	this.position = 0
 
+	// A short read (pipe, socket, ...) must not leave a partial 64-bit word at
+	// the end of the buffer while the source still has data: keep reading
+	// until the byte count is a multiple of 8, the buffer is full or the
+	// source ends or fails.
+	for size > 0 && size&7 != 0 && size < count && err == nil {
+		var n int
+		n, err = this.is.Read(this.buffer[size:count])
+
+		if n <= 0 {
+			break
+		}
+
+		size += n
+	}
+
 	if size <= 0 {
 		this.maxPosition = -1
 
